@@ -887,6 +887,10 @@ def adversary_scenarios(chk, n, tag):
                 "rpc 2 1 id=probe size=10",
                 "connect 2 1", "sleep 300", "peers 2", "rpc 2 1 id=real size=10", "log 1",
                 "events 2"]
+        if "k=e" not in spec:
+            # a dial naming the key of the very certificate the adversary presents: judged like the plain dial (name, validity,
+            # usage and proof of possession are checked all the same)
+            cmds += ["disconnect 2 8", "sleep 300", "connect 2 8 pin=8", "sleep 300", "disconnect 2 8", "sleep 300"]
         # overlapping dials to one address, one of them naming identity 1 (which is not there): each dial is judged on its own
         cmds += ["node 4 key=%d name=n%d" % (V + 3, name), "bg ov1 connect 2 4", "connect 2 4 pin=1", "join ov1", "sleep 300",
                  "node 5 key=%d name=n%d" % (V + 4, name), "bg ov2 connect 2 5 pin=1", "connect 2 5", "join ov2", "sleep 300",
@@ -938,6 +942,13 @@ def adversary_scenarios(chk, n, tag):
         conn_ok = r["connect 2 8"][0].startswith("ok")
         want_dial = mode in ("self", "client-only")
         want_conn = mode in ("self", "server-only")
+        if "connect 2 8 pin=8" in r:
+            chk.count("dial-pinned-to-the-adversary's-certificate-key")
+            pin_ok = r["connect 2 8 pin=8"][0].startswith("ok")
+            if pin_ok and not want_conn:
+                chk.monitor_fail("[%s] a dial naming the key of the certificate the adversary presents succeeded, although that certificate must be refused" % label, dict(case=sc, impl=o[:1500]))
+            elif pin_ok != want_conn and "replay" not in label and "resigned" not in label:
+                chk.disagree(sc, "[%s] dial pinned to the adversary's own certificate key accepted=%s" % (label, pin_ok), "Tls.v: %s" % want_conn, "simnet/adversary-pinned")
         if dialed_ok != want_dial or conn_ok != want_conn:
             chk.disagree(sc, "[%s] adversary-as-client admitted=%s, as-server accepted=%s" % (label, dialed_ok, conn_ok),
                          "Tls.v: as-client %s, as-server %s" % (want_dial, want_conn), "simnet/adversary")
@@ -984,6 +995,9 @@ def adversary_c14(chk):
         if chk.rng.random() < 0.5:
             extra = " chain=%s chainnames=n%d" % (chk.rng.choice(["9", "9,5"]), chk.rng.choice([p, p, a or p, 10, 20, 30]))
         cmds += ["adv 8 k=7 names=n%d%s" % (cn, extra), "advdial 8 1 sni=n%d" % sni, "sleep 300", "peers 1"]
+        # the other direction: node 1 dials the adversary, which answers every hello with its one certificate (issued for
+        # n<cn>) - plainly and naming the adversary's key; a dialer always asks for its primary name
+        cmds += ["advop 8 1 close", "sleep 300", "connect 1 8", "sleep 300", "disconnect 1 8", "sleep 300", "connect 1 8 pin=8", "sleep 300"]
         scen.append("simnet " + " ; ".join(cmds))
         metas.append((p, a, sni, cn))
     outs, parsed = run_scenarios(chk, scen, "fabric:adversary-names")
@@ -1006,6 +1020,11 @@ def adversary_c14(chk):
             chk.monitor_fail("listener (names %s) admitted a dialer claiming n%d with a certificate for n%d" % (sorted(names), sni, cn), dict(case=sc, impl=o[:600]))
         if got != mo:
             chk.disagree(sc, got, mo, "simnet/adversary-names")
+        for c in ("connect 1 8", "connect 1 8 pin=8"):
+            ok = res[cl.index(c)].startswith("ok")
+            chk.count("dial-to-a-listener-with-one-certificate:" + ("accepted" if ok else "refused"))
+            if ok != (cn == p):
+                chk.monitor_fail("node 1 (network n%d) dialing (%s) a listener whose certificate is issued for n%d: %s" % (p, "naming the listener's key" if "pin" in c else "plainly", cn, "connected" if ok else "refused"), dict(case=sc, impl=o[:800]))
     if outs:
         chk.sample(dict(case=scen[0], impl=outs[0][:300], model=mouts[0]))
 
@@ -1713,7 +1732,8 @@ def c11(chk):
                 "node 0 idle=600000 keepalive=5000" + (" out_to=%d" % out_to if out_to else "") + (" outlayer=1" if rng.random() < 0.35 else ""),
                 "node 1 idle=600000 keepalive=5000" + (" in_to=%d" % in_to if in_to else ""),
                 "connect 0 1", "sleep 500",
-                "rpc 0 1 id=t size=20 sleep-ms=%d%s" % (h, " timeout-hdr=%s" % (hdr.encode().hex() or "-") if hdr is not None else ""),
+                # the handler needs its time in one await, or in several (7, 30) shorter ones: the deadline counts from the start
+                "rpc 0 1 id=t size=20 sleep-ms=%d%s%s" % (h, " timeout-hdr=%s" % (hdr.encode().hex() or "-") if hdr is not None else "", rng.choice(["", "", " ticks=7", " ticks=30"])),
                 "sleep %d" % (4 * delay_ms + 50), "stat 1", "rpc 0 1 id=again size=5", "peers 0"]
         scen.append("simnet " + " ; ".join(cmds))
         o = lambda x: "none" if x is None else str(x * MS)
@@ -1812,6 +1832,8 @@ def c11_raw(chk):
         if e_in is not None and abs(e_in - h) < 15:
             continue
         hs = [(b"id", b"raw"), (b"sleep-ms", str(h).encode())] + ([(b"timeout", str(hv * MS).encode())] if hv is not None else [])
+        if rng.random() < 0.5:
+            hs.append((b"ticks", rng.choice([b"5", b"30"])))       # a handler that makes progress in many short steps
         cmds = ["seed=%d delay=1000" % rng.randrange(1 << 30),
                 "node 1 key=1 name=n10 idle=600000 keepalive=5000" + (" in_to=%d" % in_to if in_to else ""),
                 "adv 8 k=7 names=n10", "advdial 8 1 sni=n10", "sleep 300",
